@@ -46,6 +46,14 @@ Step(st) == IF st.i < NP(st) THEN OuterStep(st) ELSE Finish(st)
 NodeRange(sizes, nd) == <<nd[1], nd[2], IF nd[3] = -1 THEN sizes[nd[1]] - nd[2] ELSE nd[3] - nd[2]>>
 NonEmpty(sizes, nodes) == SelectSeq([j \in DOMAIN nodes |-> NodeRange(sizes, nodes[j])], LAMBDA r : r[3] > 0)
 
+\* the closure: the whole piece map of a torrent (used by FindMatches and by the trace specification)
+RECURSIVE RunMap(_)
+RunMap(s) == IF s.pc = "done" THEN s ELSE RunMap(Step(s))
+MapAll(sizes, P) == RunMap([pc |-> "run", sizes |-> sizes, P |-> P, i |-> 0, fi |-> 0, rem |-> 0, cur |-> 1,
+                            pieces |-> <<>>]).pieces
+\* piece k as <<file, offset, length>> ranges, zero-length files included
+Ranges(sizes, nodes) == [j \in DOMAIN nodes |-> NodeRange(sizes, nodes[j])]
+
 VARIABLE st
 Init == \E n \in 1 .. MaxFiles, P \in PieceLens : \E sizes \in [1 .. n -> 0 .. MaxSize] :
             /\ Total(sizes) > 0
